@@ -186,6 +186,14 @@ func scalarTemplate(r *core.Rand, dst reflect.Value) string {
 		dst.SetUint(x)
 		return jsonNum(dst)
 	case reflect.Float32:
+		if r.Chance(1, 6) {
+			// decimals that must be rounded to float32 in one step: just beside a rounding
+			// midpoint, and below the smallest subnormal (zero: the field is cleared)
+			lit := core.Pick(r, []string{"16777217.0000000001", "1.00000005960464477539062501", "0.99999997019767761230468749", "33554434.000000001", "1e-46", "7.0064923216240854e-46", "2.0000001192092896"})
+			f32, _ := strconv.ParseFloat(lit, 32)
+			dst.SetFloat(f32)
+			return lit
+		}
 		f := float64(r.Float32(false))
 		if zero || math.IsInf(f, 0) {
 			f = 0
@@ -323,12 +331,26 @@ func template(r *core.Rand, v reflect.Value, depth int, rules proto.RewriterRule
 			if rules != nil && r.Chance(1, 4) {
 				switch dst.Kind() {
 				case reflect.Int32:
+					if r.Chance(1, 3) { // the mask type need not have the signedness of the field
+						mask := uint32(r.Uint64B())
+						rules[fieldName(f)] = proto.BitOr[uint32]{}
+						dst.SetInt(int64(int32(uint32(dst.Int()) | mask)))
+						members = append(members, string(name)+":"+strconv.FormatUint(uint64(mask), 10))
+						continue
+					}
 					mask := int32(r.Int64())
 					rules[fieldName(f)] = proto.BitOr[int32]{}
 					dst.SetInt(int64(int32(dst.Int()) | mask))
 					members = append(members, string(name)+":"+strconv.FormatInt(int64(mask), 10))
 					continue
 				case reflect.Int64, reflect.Int:
+					if r.Chance(1, 3) {
+						mask := r.Uint64B()
+						rules[fieldName(f)] = proto.BitOr[uint64]{}
+						dst.SetInt(int64(uint64(dst.Int()) | mask))
+						members = append(members, string(name)+":"+strconv.FormatUint(mask, 10))
+						continue
+					}
 					mask := r.Int64()
 					rules[fieldName(f)] = proto.BitOr[int64]{}
 					dst.SetInt(dst.Int() | mask)
